@@ -298,6 +298,16 @@ Definition run (cfg : runcfg) (fs : fstate) : list effect * fstate :=
   let '(e, d) := run_ma (mode_of (fs_mode fs)) (asof_of (fs_mode fs)) cfg (dirs_of fs) in
   (e, {| fs_mode := fs_mode fs; fs_local := d_local d; fs_upload := d_upload d |}).
 
+(* upload.Run / newUploader (run.go): the configuration in force.  Only when
+   the mode file reads on is the published upload config downloaded
+   (configstore.Download) and its SampleRate used as it was published; in
+   every other mode the uploader runs with an empty config (SampleRate 0). *)
+Definition with_rate (cfg : runcfg) (r : R) : runcfg :=
+  {| rc_start := rc_start cfg; rc_x := rc_x cfg; rc_rate := r; rc_resp := rc_resp cfg |}.
+Definition run_entry (published_rate : R) (cfg : runcfg) (fs : fstate) : list effect * fstate :=
+  if beq (mode_of (fs_mode fs)) m_on then run (with_rate cfg published_rate) fs
+  else run (with_rate cfg rzero) fs.
+
 (* ---- the counter package's side (internal/counter/file.go Open, rotate1, Add).
    The mode file is read by Open and again by EVERY rotate1 (the call Open
    makes, and each later call by the weekly rotation timer): with mode off,
